@@ -47,7 +47,8 @@ def run(ctx):
     ctx.not_decided = 'nothing beyond A2 (ordering of the frames follows from C11.1 + C11.2 + C01).'
     ctx.rule('C11.1', 'every ToolRunner::run in ripd is created and polled inside the live range of a WorkspaceGuard, or is reachable only through the false edge of requires_workspace_lock(&invocation.name) on the same invocation; checkpoint create / rewind and both task runners are inside a guard.')
     ctx.rule('C11.2', 'every append_tool_side_effects is inside the same guard as the run that produced the frames, dominated by that run and by the emission of the tool\'s frames, in the same loop nest (one per run).')
-    ctx.rule('C11.3', 'classification: every tool name requires_workspace_lock treats as read-only is registered, and its handler (through aliases) reaches no FsWrite and no ProcSpawn effect.')
+    ctx.rule('C11.3', 'classification: requires_workspace_lock is evaluated concretely for every registered tool name and alias (allow-list or deny-list alike); every name for which it answers "no lock" is a tool whose handler reaches no FsWrite and no ProcSpawn effect.')
+    ctx.rule('C11.5', 'each mutating call yields its frame however the tool ended: in summarize_continuity_tool_side_effects every `?` that can turn the summary into None is applied to a search whose closure looks at ToolStarted frames only — whether a side-effects frame is written must not depend on tool_ended / tool_failed / checkpoint frames being present (a failed or timed-out mutating call has none of them).')
     ctx.rule('C11.4', 'one lock: WorkspaceLock::new has one caller, its semaphore has the constant 1 permit, and the same Arc reaches the task engine and every session.')
 
     runs = [s for s in P.callers(RUN) if s.fn.crate == 'ripd']
@@ -99,12 +100,20 @@ def run(ctx):
     rq = P.fn('ripd::workspace_lock::requires_workspace_lock')
     ctx.touch(rq)
     names = sorted({n for n, _ in str_consts_compared(rq)})
-    ctx.floor('C11.3', 'read-only tool names', len(names), 4)
+    ctx.floor('C11.3', 'tool names the classifier compares against', len(names), 3)
     tools, aliases = tool_registry(P)
-    for nme in names:
+    from .common import eval_str_predicate
+    # the classifier is evaluated concretely for every registered name and alias (polarity-independent:
+    # allow-list or deny-list, match or if-chain): a name for which it answers "no lock" must be a tool
+    # without a write / spawn effect; a name it has never heard of must take the lock
+    verdicts = {n: eval_str_predicate(rq, n) for n in sorted(set(tools) | set(aliases))}
+    unknown = eval_str_predicate(rq, '\x00no-such-tool')
+    if None in verdicts.values() or unknown is None:
+        raise CheckError('C11.3: requires_workspace_lock is not a literal string classifier any more (construct not modelled by the evaluator)')
+    for nme in sorted(verdicts):
+        if verdicts[nme]:
+            continue
         target = aliases.get(nme, nme)
-        if target not in tools:
-            raise CheckError('C11.3: read-only name %r is compared but not registered' % nme)
         par = P.reach_fns([tools[target]])
         bad = []
         for eff in ('FsWrite', 'ProcSpawn'):
@@ -112,15 +121,12 @@ def run(ctx):
                 d = E.direct(p)
                 if eff in d:
                     bad.append((eff, P.chain(par, p), d[eff][0]))
-        ctx.ob('C11.3', rq, 'read-only-tool-has-no-write:' + nme, not bad,
-               'tool `%s` (%d functions reachable) %s' % (nme, len(par), 'has no FsWrite / ProcSpawn effect' if not bad else
-                                                          'is classified read-only but reaches %s: %s' % (bad[0][0], ' -> '.join(x.split('::')[-1] for x in bad[0][1]) + ' -> ' + bad[0][2].callee)), line=rq.line)
-    # the classification is a whitelist: result is the negation of the match (unknown names lock)
-    rets_true = []
-    consts = [(bi, st) for bi in rq.reachable() for st in rq.blocks[bi]['s'] if st.get('rv', {}).get('k') == 'use' and op_const(st['rv']['a'][0]) is not None and st['d']['l'] == 0]
-    vals = {op_const(st['rv']['a'][0]).get('v') for _, st in consts}
-    negs = [st for bi in rq.reachable() for st in rq.blocks[bi]['s'] if st.get('rv', {}).get('k') == 'un' and st['rv']['op'] == 'Not']
-    ctx.ob('C11.3', rq, 'whitelist-form', bool(negs) or vals == {True, False}, 'unknown tool names take the lock (the read-only list is a negated whitelist)', line=rq.line)
+        ctx.ob('C11.3', rq, 'unlocked-tool-has-no-write:' + nme, not bad,
+               'requires_workspace_lock("%s") = false; the tool%s (%d functions reachable) %s' % (nme, ' (alias of %s)' % target if target != nme else '', len(par), 'has no FsWrite / ProcSpawn effect' if not bad else
+                                                          'RUNS WITHOUT THE WORKSPACE LOCK but reaches %s: %s' % (bad[0][0], ' -> '.join(x.split('::')[-1] for x in bad[0][1]) + ' -> ' + bad[0][2].callee)), line=rq.line)
+    ctx.note('C11.3: a name the classifier has never heard of %s (not an obligation: only registered tools can run)' % ('takes the lock' if unknown else 'runs without the lock'))
+    ctx.floor('C11.3', 'registered tool names and aliases evaluated', len(verdicts), 8)
+    ctx.note('C11.3 classifier verdicts: ' + ', '.join('%s=%s' % (k, 'lock' if v else 'no-lock') for k, v in sorted(verdicts.items())))
 
     # ---------------------------------------------------------------- C11.4
     news = P.callers(r'^ripd::workspace_lock::WorkspaceLock::new$')
@@ -132,3 +138,39 @@ def run(ctx):
     acq = P.body('ripd::workspace_lock::WorkspaceLock::acquire')
     ao = acq.calls(r'Semaphore::acquire_owned$|Semaphore::acquire$|acquire_many')
     ctx.ob('C11.4', acq, 'acquire-one', len(ao) == 1 and ao[0].name == 'acquire_owned', 'acquire takes one owned permit (%s)' % [a.name for a in ao], line=acq.line)
+
+
+    # ---------------------------------------------------------------- C11.5
+    from .c01 import ok_edge_of_try
+    sm = P.fn('ripd::session::summarize_continuity_tool_side_effects')
+    ctx.touch(sm)
+    ek = P.adts.get('rip_kernel::EventKind')
+    vnames = [v['name'] for v in ek['variants']] if ek else []
+    ntry = 0
+    for s_ in sm.sites():
+        if re.search(r'Try>::branch$|::map_err$', s_.callee):
+            continue
+        if ok_edge_of_try(sm, s_) is None:
+            continue
+        # closures handed to the searched call (find_map / find / position / and_then ...)
+        tested = set()
+        ncl = 0
+        for a in s_.args:
+            o = sm.origin(a)
+            if o[0] == 'rv' and o[1].get('ak') == 'closure' and o[1].get('def') in P.fns:
+                ncl += 1
+                cf = P.fns[o[1]['def']]
+                for (bi, on, ts, els) in switches(cf):
+                    oo = cf.origin(on)
+                    if oo[0] == 'rv' and oo[1]['k'] == 'discr' and (re.search(r'rip_kernel::EventKind$', cf.lty(oo[1]['pl']['l'])) and all(pp == '*' for pp in oo[1]['pl'].get('p', [])) or any(isinstance(pp, dict) and pp.get('n') == 'kind' and pp.get('o') == 'rip_kernel::Event' for pp in oo[1]['pl'].get('p', [])) and not any(isinstance(pp, dict) and pp.get('o') == 'rip_kernel::EventKind' for pp in oo[1]['pl'].get('p', []))):
+                        for k in ts:
+                            if str(k).isdigit() and int(k) < len(vnames):
+                                tested.add(vnames[int(k)])
+        if not ncl:
+            continue
+        ntry += 1
+        other = sorted(tested - {'ToolStarted'})
+        ctx.ob('C11.5', sm, 'none-only-without-tool-started:' + s_.name, not other,
+               'the `?` on %s looks for %s' % (s_.name, 'ToolStarted only: no tool ran, nothing to record' if not other else
+               '%s: a mutating call whose run produced no such frame (tool_failed, timeout, unknown tool) leaves NO side-effects frame on the thread' % ', '.join(other)), line=s_.line)
+    ctx.floor('C11.5', '`?` on frame searches in summarize_continuity_tool_side_effects', ntry, 1)
